@@ -1,3 +1,5 @@
--- This module serves as the root of the `Z80` library.
--- Import modules here that should be built as part of the library.
-import Z80.Basic
+-- Root of the `Z80` library.
+import Z80.Base
+import Z80.Attr
+import Z80.Monad
+import Z80.Gen.All
